@@ -36,9 +36,11 @@ Min2(a, b) == IF a < b THEN a ELSE b
 (* "unreg" is a parameter set that is never registered.  `reg` says        *)
 (* whether the network is in chaincfg's registry (signet is not registered *)
 (* by init(), but every prefix it uses is registered through testnet3).    *)
+(* hrp is the prefix in its canonical (lower case) form, reghrp the text    *)
+(* the parameter set carries (Bech32HRPSegwit).                             *)
 
 Net(name, hrp, codes, pkh, sh, wif, hdpriv, hdpub, reg) ==
-    [name |-> name, hrp |-> hrp, hrpcodes |-> codes, pkh |-> pkh, sh |-> sh, wif |-> wif,
+    [name |-> name, hrp |-> hrp, reghrp |-> hrp, hrpcodes |-> codes, pkh |-> pkh, sh |-> sh, wif |-> wif,
      hdpriv |-> hdpriv, hdpub |-> hdpub, reg |-> reg]
 
 TPrv == <<4, 53, 131, 148>>
@@ -53,7 +55,15 @@ NetTable == <<
     Net("simnet",   "sb",   <<115, 98>>,          63, 123, 100, <<4, 32, 185, 0>>, <<4, 32, 189, 58>>, TRUE),
     Net("custom",   "vn",   <<118, 110>>,         33,  34,  35, <<1, 2, 3, 4>>, <<1, 2, 3, 5>>, TRUE),
     Net("collide",  "cx",   <<99, 120>>,          48,  48,  49, <<1, 2, 4, 4>>, <<1, 2, 4, 5>>, TRUE),
-    Net("unreg",    "zz",   <<122, 122>>,         81,  82,  83, <<9, 9, 9, 1>>, <<9, 9, 9, 2>>, FALSE) >>
+    Net("unreg",    "zz",   <<122, 122>>,         81,  82,  83, <<9, 9, 9, 1>>, <<9, 9, 9, 2>>, FALSE),
+    \* prefix classes of BIP173 (1 to 83 characters of US-ASCII 33..126, case-insensitive),
+    \* registered by the binder; identifier bytes shared with "custom":
+    \* a prefix that contains the digit 1 (the separator is the LAST 1 of a string),
+    \* a prefix of one character, a prefix registered in upper case
+    Net("hrpdigit", "l1x",  <<108, 49, 120>>,     33,  34,  35, <<1, 2, 3, 4>>, <<1, 2, 3, 5>>, TRUE),
+    Net("hrpone",   "k",    <<107>>,              33,  34,  35, <<1, 2, 3, 4>>, <<1, 2, 3, 5>>, TRUE),
+    [Net("hrpupper", "up",  <<117, 112>>,         33,  34,  35, <<1, 2, 3, 4>>, <<1, 2, 3, 5>>, TRUE)
+        EXCEPT !.reghrp = "UP"] >>
 
 NetNames == {NetTable[i].name : i \in 1..Len(NetTable)}
 NetOf(name) == CHOOSE n \in Range(NetTable) : n.name = name
@@ -67,6 +77,15 @@ RegShIds  == {n.sh : n \in RegNets}
 AllHrps   == {n.hrp : n \in Range(NetTable)}
 HrpCodes(h) == (CHOOSE n \in Range(NetTable) : n.hrp = h).hrpcodes
 NetsWithHrp(h)  == {n.name : n \in {m \in Range(NetTable) : m.hrp = h}}
+\* Implementation layer of the prefix registry.  chaincfg.Register stores the
+\* prefix text as given and IsBech32SegwitPrefix lower-cases only the query;
+\* DecodeAddress wants the last '1' at an index above 1; IsForNet compares the
+\* (lower-cased) prefix of the address with the text of the parameter set.  So
+\* the code decodes the segwit strings of a prefix only if it is registered in
+\* lower case and has two characters or more.
+ImplRegHrps       == {n.reghrp : n \in RegNets}
+ImplDecodable(h)  == h \in ImplRegHrps /\ Len(HrpCodes(h)) >= 2
+ImplNetsWithHrp(h) == {n.name : n \in {m \in Range(NetTable) : m.reghrp = h}}
 NetsWithPkh(v)  == {n.name : n \in {m \in Range(NetTable) : m.pkh = v}}
 NetsWithSh(v)   == {n.name : n \in {m \in Range(NetTable) : m.sh = v}}
 NetsWithWif(v)  == {n.name : n \in {m \in Range(NetTable) : m.wif = v}}
@@ -183,7 +202,9 @@ B58Bytes(digits)  == [i \in 1..LeadZeros(digits, 1) |-> 0] \o Rebase(digits, 58,
 (*   ck      checksum verifies as "b32", as "b32m", or "bad"               *)
 (*   ver     value of the first data symbol, -1 when there is none         *)
 (*   ng      number of data symbols after the version symbol               *)
-(*   padzero the 5*ng mod 8 left-over bits are all zero                    *)
+(*   padzero the 5*ng mod 8 left-over bits are all zero (BIP173: at most 4  *)
+(*           left-over bits, all zero; five or more zero bits - a whole     *)
+(*           superfluous symbol - are as wrong as non-zero ones)            *)
 (*   anchor  the program is the two bytes 4e 73                            *)
 ProgLen(ng)  == (5 * ng) \div 8
 LeftOver(ng) == (5 * ng) % 8
@@ -217,9 +238,13 @@ DecideBech(s) ==
 \* What the code does (implementation layer).  Until btcd 0331262a the switch on
 \* the program length in DecodeAddress did not look at the version for 20-byte
 \* programs (a v1 program came back as a v0 P2WPKH address); the repaired code
-\* refuses them, so the layers coincide.  The operator is kept: the binder
-\* compares with both layers and a regression is a plain violation.
-ImplBech(s) == DecideBech(s)
+\* refuses them.  What is left: prefixes the code's registry never matches
+\* (ImplDecodable).  The binder compares with both layers; a divergence from
+\* the property that is not the implementation layer's is a plain violation.
+ImplBech(s) ==
+    IF ~ImplDecodable(s.hrp) THEN Reject
+    ELSE LET d == DecideBech(s)
+         IN  IF d.accept THEN [d EXCEPT !.fornets = ImplNetsWithHrp(s.hrp)] ELSE d
 
 (* Base58Check form: v version byte (-1: a byte no table mentions), plen   *)
 (* payload length, ck "ok"/"bad", defect "none" / "badchar" (symbol outside*)
@@ -255,10 +280,12 @@ DecidePkHex(s, dn) ==
               reencodes |-> s.prefix \in {2, 3, 4},
               fornets |-> NetsWithPkh(NetOf(dn).pkh)]
 
-\* dispatch of DecodeAddress: sep = index of the last '1' (0: none), prefixreg:
-\* the text up to and including it is a registered prefix (case-insensitive)
+\* which form a string has: sep = index of the last '1' (0-based, -1: none),
+\* prefixreg: the text before it is (in any case) the prefix of a registered
+\* network.  BIP173 allows one-character prefixes, so sep >= 1.  (The code's own
+\* dispatch asks for sep > 1 and looks the text up as ImplDecodable says.)
 FormOf(sep, prefixreg, nchars) ==
-    IF sep > 1 /\ prefixreg THEN "bech" ELSE IF nchars \in {66, 130} THEN "pkhex" ELSE "b58"
+    IF sep >= 1 /\ prefixreg THEN "bech" ELSE IF nchars \in {66, 130} THEN "pkhex" ELSE "b58"
 
 -----------------------------------------------------------------------------
 (* (b) address kinds, script templates, script classes                     *)
@@ -338,6 +365,15 @@ Extract(sc) ==
           [] c = "witness_v1_taproot" -> [class |-> c, reqsigs |-> 1, addrs |-> <<"p2tr">>]
           [] c = "anchor" -> [class |-> c, reqsigs |-> 0, addrs |-> <<"p2a">>]
           [] OTHER -> [class |-> "nonstandard", reqsigs |-> 0, addrs |-> <<>>]
+
+\* IsWitnessProgram / ExtractWitnessProgramInfo (BIP141): a version opcode
+\* OP_0..OP_16 and one direct push of 2..40 bytes, nothing else
+IsWitProg(sc) ==
+    /\ Len(sc) = 2 /\ sc[1].t = "op" /\ sc[1].v \in ({OP0} \cup (81..96))
+    /\ sc[2].t = "push" /\ sc[2].via = "direct" /\ sc[2].n \in 2..40
+WitProgOf(sc) ==
+    IF IsWitProg(sc) THEN [is |-> TRUE, ver |-> IF sc[1].v = OP0 THEN 0 ELSE sc[1].v - 80, plen |-> sc[2].n]
+    ELSE [is |-> FALSE, ver |-> 0, plen |-> 0]
 
 \* ParsePkScript keeps the fixed-size templates only
 PkScriptSupported(class) ==
